@@ -136,7 +136,7 @@ func formArg(form, doc string, gv any) any {
 }
 
 func checkC14(c *vkit.Ctx) {
-	c.P.Rule = "case = (JSON document tree depth<=4 with hostile keys/strings/numbers, entry point MatchJSON|MatchStandaloneJSON, JSON format option set, two presentations: random insignificant whitespace, member shuffle when SortKeys is on, input form string|[]byte|Go value where the document is json.Marshal(value)); recorded through presentation 1, replayed through presentation 2 in a fresh simulated process (must pass, no write), recorded again through presentation 2 in another slot (texts must be equal), stored text decoded with encoding/json and compared with the input tree (ordered when SortKeys is off); plus invalid documents (24 malformation classes) in four modes over missing/existing slots; non-trivial = document with nesting>=2 or a hostile key/number/string class, or an invalid document; distinct by hash(document, presentations, options, api)"
+	c.P.Rule = "case = (JSON document tree depth<=4 with hostile keys/strings/numbers, entry point MatchJSON|MatchStandaloneJSON, JSON format option set, two presentations: random insignificant whitespace, member shuffle when SortKeys is on, input form string|[]byte|Go value where the document is json.Marshal(value)); recorded through presentation 1, replayed through presentation 2 in a fresh simulated process (must pass, no write), recorded again through presentation 2 in another slot (texts must be equal), stored text decoded with encoding/json and compared with the input tree (ordered when SortKeys is off); plus invalid documents (24 malformation classes, the empty one also as a nil []byte) in four modes over missing/existing slots; non-trivial = document with nesting>=2 or a hostile key/number/string class, or an invalid document; distinct by hash(document, presentations, options, api)"
 	c.P.Assumptions = []string{"encoding/json is the oracle for JSON validity and for decoding", "tree comparison treats numbers by exact rational value"}
 	cfgs := jsonCfgs()
 	if os.Getenv("VERIF_RACE_BUILD") == "1" {
